@@ -115,6 +115,22 @@ func probeQuirks() string {
 			r.Exec("props s=84:0 a=1")
 			r.Exec("lock")
 			rep, _ := r.Exec("unlock p=0")
+			if strings.HasPrefix(rep, "ok") {
+				// DeriveFromKeyPathCache on a cached account that has no private key (imported xpub), manager
+				// unlocked: nil acctKeyPriv dereferenced (runs in a scratch manager of its own: it poisons the case)
+				func() {
+					r2 := &runner{}
+					defer r2.Close()
+					defer func() { _ = recover() }()
+					r2.Exec("create seed=" + probeSeed + " q=-")
+					r2.Exec("unlock p=0")
+					r2.Exec("newxpub s=84:0 name=5 x=1 ci=2147483649 fp=7 schema=-")
+					r2.Exec("props s=84:0 a=1")
+					if rep, _ := r2.Exec("dcache s=84:0 a=1 ac=0 b=0 i=0"); strings.HasPrefix(rep, "panic") {
+						q = append(q, "d1")
+					}
+				}()
+			}
 			if strings.HasPrefix(rep, "err crypto") {
 				q = append(q, "f2")
 			}
@@ -258,6 +274,8 @@ func (g *gstate) step() {
 		h := g.h()
 		g.add("lookup s=%s ref=%s h=%d", sc, ref, h)
 		g.keyH = append(g.keyH, h)
+	case k >= 53 && k < 56: // DeriveFromKeyPathCache: the same branch/index for every account of a scope in turn
+		g.dcacheBurst()
 	case k < 56: // privkey
 		if len(g.keyH) > 0 {
 			g.add("privkey h=%d", g.keyH[rng.Intn(len(g.keyH))])
@@ -288,6 +306,25 @@ func (g *gstate) step() {
 				g.add("lock")
 			}
 			g.locked = true
+		}
+	case k == 68: // rename an account
+		sc := g.scope()
+		a := g.acct(sc)
+		g.nName++
+		name := 1 + g.nName
+		switch rng.Intn(8) {
+		case 0:
+			name = 1 // "default": taken
+		case 1:
+			name = 0 // empty
+		}
+		acct := a.num
+		if rng.Intn(10) == 0 {
+			acct = []uint32{importedAcct, 55}[rng.Intn(2)]
+		}
+		g.add("rename s=%s a=%d name=%d", sc, acct, name)
+		if a.x {
+			g.tags["rename.xpub-account"] = true
 		}
 	case k < 69: // markused
 		sc, ref := g.chainRef(true)
@@ -421,6 +458,50 @@ func (g *gstate) step() {
 }
 
 func (g *gstate) passUse(kind string, i int) {}
+
+// dcacheBurst: DeriveFromKeyPathCache for one branch/index in (up to four) accounts of one scope, sometimes after
+// `props` has drawn each account into the cache, with the `Account` field of the path as callers fill it in:
+// the hardened child number, or a constant (zero / what the wallet's recovery code passes).  On a tree with the
+// `d1` defect the call panics for a cached xpub account while unlocked, so those accounts are left out there.
+func (g *gstate) dcacheBurst() {
+	rng := g.rng
+	if g.locked && !g.wo && rng.Intn(2) == 0 {
+		g.add("unlock p=%d", g.curPriv)
+		g.locked = false
+	}
+	sc := g.scope()
+	accts := append([]gacct{}, g.accts[sc]...)
+	rng.Shuffle(len(accts), func(i, j int) { accts[i], accts[j] = accts[j], accts[i] })
+	if len(accts) > 4 {
+		accts = accts[:4]
+	}
+	b, i := uint32(rng.Intn(2)), uint32(rng.Intn(3))
+	if rng.Intn(12) == 0 {
+		b, i = hardened+uint32(rng.Intn(2)), hardened+uint32(rng.Intn(2))
+	}
+	mode := rng.Intn(3)
+	load := rng.Intn(3) != 0
+	for _, a := range accts {
+		if a.x && !g.locked && !g.wo && strings.Contains(g.q, "d1") {
+			continue
+		}
+		ac := a.num + hardened
+		switch mode {
+		case 1:
+			ac = 0
+		case 2:
+			ac = hardened
+		}
+		if load {
+			g.add("props s=%s a=%d", sc, a.num)
+		}
+		g.add("dcache s=%s a=%d ac=%d b=%d i=%d", sc, a.num, ac, b, i)
+		g.tags["dcache."+map[bool]string{true: "locked", false: "unlocked"}[g.locked]] = true
+	}
+	if len(accts) > 1 {
+		g.tags["dcache.several-accounts"] = true
+	}
+}
 
 // dropClobbered: on a tree with the `l1` defect the first account created in a custom scope overwrites that
 // scope's account 0 (reported by the oracle at that very op).  What the scope does afterwards depends on stale
@@ -579,6 +660,47 @@ func directed(rng *rand.Rand, q string) []core.Case {
 			"newacct s="+cs+" name=2", "newxpub s="+cs+" name=3 x=1 ci=2147483649 fp=7 schema=-", "next s="+cs+" a=1 n=1 int=0 h=3",
 			"next s="+cs+" a=2 n=1 int=1 h=4", "next s="+cs+" a=0 n=1 int=0 h=5", "props s="+cs+" a=0", "restart", "props s="+cs+" a=0",
 			"props s="+cs+" a=1", "next s="+cs+" a=0 n=1 int=0 h=6", "unlock p=0", "lookup s="+cs+" ref=c:0:0:2 h=7", "privkey h=7")
+	}
+	// DeriveFromKeyPathCache / Wallet.DeriveFromKeyPath: the same branch/index in several cached accounts of one scope,
+	// `Account` left constant (as the wallet's recovery code does), both orders, hits and misses, lock in between
+	for _, sc := range []string{"84:0", "86:0"} {
+		mk("derive-cache-two-accounts", "unlock p=0", "newacct s="+sc+" name=2", "newacct s="+sc+" name=3",
+			"dcache s="+sc+" a=0 ac=0 b=0 i=0", "next s="+sc+" a=0 n=1 int=0 h=1", "next s="+sc+" a=1 n=1 int=0 h=2", "props s="+sc+" a=2",
+			"dcache s="+sc+" a=0 ac=0 b=0 i=0", "dcache s="+sc+" a=1 ac=0 b=0 i=0", "dcache s="+sc+" a=2 ac=0 b=0 i=0",
+			"dcache s="+sc+" a=1 ac=0 b=0 i=0", "dcache s="+sc+" a=0 ac=0 b=0 i=0", "privkey h=1", "privkey h=2",
+			"dcache s="+sc+" a=2 ac=2147483648 b=1 i=2", "dcache s="+sc+" a=1 ac=2147483648 b=1 i=2", "dcache s="+sc+" a=0 ac=2147483648 b=1 i=2",
+			"lock", "dcache s="+sc+" a=1 ac=0 b=0 i=0", "unlock p=0", "dcache s="+sc+" a=1 ac=0 b=0 i=0", "dcache s="+sc+" a=0 ac=0 b=0 i=0",
+			"dcache s="+sc+" a=7 ac=0 b=0 i=0", "restart", "unlock p=0", "dcache s="+sc+" a=1 ac=0 b=0 i=0", "props s="+sc+" a=1", "props s="+sc+" a=0",
+			"dcache s="+sc+" a=1 ac=2147483649 b=0 i=0", "dcache s="+sc+" a=0 ac=2147483649 b=0 i=0", "convertwo", "dcache s="+sc+" a=0 ac=0 b=0 i=0")
+	}
+	if !strings.Contains(q, "d1") {
+		// a cached imported (xpub) account has no private key: refused, the manager keeps working
+		mk("derive-cache-xpub-account", "unlock p=0", "newxpub s=84:0 name=2 x=1 ci=2147483649 fp=7 schema=-", "props s=84:0 a=1", "props s=84:0 a=0",
+			"dcache s=84:0 a=1 ac=0 b=0 i=0", "dcache s=84:0 a=0 ac=0 b=0 i=0", "derive s=84:0 a=1 ac=0 b=0 i=0 h=1", "privkey h=1")
+	}
+	// an imported account whose overriding address schema differs from its scope's (traditional BIP49 account in the
+	// BIP0049Plus scope; a nested-P2WPKH account in the BIP84 scope; a P2PKH account in the taproot scope), renamed,
+	// then read back from the database: same format, same addresses, before and after
+	for _, c := range [][2]string{{"49:0", "3/3"}, {"84:0", "3/4"}, {"86:0", "0/0"}, {"44:0", "4/6"}} {
+		sc, sch := c[0], c[1]
+		mk("rename-imported-account-schema", "newxpub s="+sc+" name=2 x=1 ci=2147483649 fp=7 schema="+sch, "next s="+sc+" a=1 n=2 int=1 h=1",
+			"next s="+sc+" a=1 n=1 int=0 h=3", "rename s="+sc+" a=1 name=3", "props s="+sc+" a=1", "next s="+sc+" a=1 n=1 int=1 h=4",
+			"rename s="+sc+" a=0 name=4", "rename s="+sc+" a=1 name=4", "rename s="+sc+" a=1 name=0", "rename s="+sc+" a=9 name=5",
+			"restart", "props s="+sc+" a=1", "props s="+sc+" a=0", "lookup s="+sc+" ref=c:1:1:0 h=5", "lookup s="+sc+" ref=c:1:0:0 h=6",
+			"next s="+sc+" a=1 n=1 int=1 h=7", "next s="+sc+" a=1 n=1 int=0 h=8", "extend s="+sc+" a=1 last=5 int=1", "lookup s="+sc+" ref=c:1:1:5 h=9",
+			"unlock p=0", "rename s="+sc+" a=1 name=6", "restart", "lookup s="+sc+" ref=c:1:1:1 h=10", "next s="+sc+" a=1 n=1 int=1 h=11", "recreate n=2")
+	}
+	// wallet level: Wallet.InitAccounts on two consecutive starts (watchOnly off/on in every combination, accounts
+	// already there or still to be made), then what a third open of the file shows
+	for _, c := range []struct {
+		sc             string
+		n1, w1, n2, w2 int
+	}{{"84:0", 2, 0, 2, 1}, {"49:0", 1, 0, 3, 1}, {"86:0", 2, 1, 2, 1}, {"44:0", 2, 0, 2, 0}, {"84:0", 1, 1, 2, 0}, {"86:0", 0, 0, 1, 1}} {
+		seed := make([]byte, 32)
+		rng.Read(seed)
+		ac := []uint32{0, hardened, 7}[rng.Intn(3)]
+		out = append(out, core.Case{Ops: []string{fmt.Sprintf("wmigrate seed=%x s=%s n1=%d w1=%d n2=%d w2=%d ac=%d", seed, c.sc, c.n1, c.w1, c.n2, c.w2, ac)},
+			Tags: []string{"directed.wallet-init-accounts"}})
 	}
 	for _, sc := range []string{"84:0", "44:0", "49:0", "86:0"} {
 		// addresses of two accounts created while locked, in both orders, then unlocked (derive-on-unlock)
